@@ -261,6 +261,17 @@ where
     ) -> Result<WriteEvent, Self::Error> {
         let _summary = self.summary().await?;
 
+        // A row for this identifier may already exist (caller
+        // chosen identifiers, create events replayed by a merge);
+        // replace it rather than appending a duplicate row which
+        // would survive a later delete
+        let (_content_offset, existing) = self.find_row(&id).await?;
+        if existing.is_some() {
+            let row = VaultCommit(commit, secret.clone());
+            self.update_secret(&id, commit, secret).await?;
+            return Ok(WriteEvent::CreateSecret(id, row));
+        }
+
         // Encode the row into a buffer
         let mut buffer = Vec::new();
         let mut writer =
